@@ -11,8 +11,9 @@ import json, os, syslog
 from vlib.core import hexs, hexlist, VERIF, CheckError
 from vlib.translate import tr_expand
 from vlib.tr_wrapper import tr_wrapper
-from vlib.tr_output import tr_output
+from vlib.tr_output import tr_output, tr_errors
 from vlib.syslevel import build_prod, run_script, per_call, call_line, run_many
+from vlib import sysmodel
 
 FAC = {"AUTH": syslog.LOG_AUTH, "AUTHPRIV": 10 << 3, "CRON": syslog.LOG_CRON, "DAEMON": syslog.LOG_DAEMON, "FTP": 11 << 3, "KERN": syslog.LOG_KERN,
        "LOCAL0": syslog.LOG_LOCAL0, "LOCAL1": syslog.LOG_LOCAL1, "LOCAL2": syslog.LOG_LOCAL2, "LOCAL3": syslog.LOG_LOCAL3, "LOCAL4": syslog.LOG_LOCAL4,
@@ -38,24 +39,32 @@ def gen_procs(rng, tier):
     for (o, arg) in outs:
         for r in range(reps):
             fac = rng.choice(sorted(FAC)); lvl = rng.choice(sorted(LVL))
+            if r == 0:
+                fac, lvl = "LOCAL7", "DEBUG"      # widest priority field (<191>): the frame's fixed part is at its longest
             ident = rng.choice([b"snoopy", b"", b"id-%{snoopy_literal:x}", b"I" * 300, b"%{filename}", b"i d[1]:"])
             chain = rng.choice([None, None, b"only_uid:0", b"exclude_uid:0", b"only_root;exclude_uid:0", b"nosuchfilter;only_uid:0"])
             llog = rng.choice([255, 1000, 16383, 1048575])
             maxmsg = {"devtty": 1500, "socket": 60000, "devlog": 60000, "stdout": 300000, "stderr": 300000}.get(o, 1048575)
             calls = []
             for k in range(5 if tier == "quick" else 8):
-                sz = rng.choice([1, 2, 17, 254, 255, 256, 1000, 5000, 70000, llog - 1, llog, llog + 1])
+                sz = rng.choice([1, 2, 17, 254, 255, 256, 1000, 5000, 70000, llog - 1, llog, llog + 1]) if k else 1
                 sz = max(0, min(sz, maxmsg)) if rng.random() > 0.07 else 0
                 a0 = rb(rng, sz)
                 argv = [a0] if sz else []     # empty argv -> cmdline falls back to the path; path empty -> empty message
                 path = b"" if not sz and rng.random() < 0.7 else rb(rng, rng.choice([1, 9]), b"/bin")
                 calls.append((rng.choice(["execve", "execv"]), path, argv))
-            procs.append({"out": o, "arg": arg, "fac": fac, "lvl": lvl, "ident": ident, "chain": chain, "llog": llog, "calls": calls})
+            # error logging on in a third of the processes, with a format whose pieces get refused at the small limits
+            el = rng.random() < 0.34
+            fmt = rng.choice([b"%{cmdline}", b"pre-%{cmdline}-post", b"%{snoopy_literal:" + b"L" * 200 + b"}%{cmdline}%{filename}"]) if el else b"%{cmdline}"
+            if el:
+                llog = rng.choice([255, 255, 1000])
+            procs.append({"out": o, "arg": arg, "fac": fac, "lvl": lvl, "ident": ident, "chain": chain, "llog": llog, "calls": calls, "el": el, "fmt": fmt})
     return procs
 
 
 def ini_of(p):
-    lines = [b"[snoopy]", b"message_format = %{cmdline}", b"datasource_message_max_length = 1048575", b"log_message_max_length = %d" % p["llog"]]
+    lines = [b"[snoopy]", b"message_format = \"" + p["fmt"] + b"\"", b"datasource_message_max_length = 1048575", b"log_message_max_length = %d" % p["llog"],
+             b"error_logging = " + (b"yes" if p["el"] else b"no")]
     lines.append(b"output = " + p["out"].encode() + (b":" + p["arg"] if p["arg"] else b""))
     lines.append(b"syslog_facility = " + p["fac"].encode())
     lines.append(b"syslog_level = " + p["lvl"].encode())
@@ -74,7 +83,9 @@ def check(run):
     consts = tr_expand(run)
     tr_wrapper(run)
     oc = tr_output(run)
-    ok, failed, log = run.coq_props(["Properties_C04.v"])
+    ec = tr_errors(run)
+    sysmodel.translate_all(run)
+    ok, failed, log = run.coq_props(["Properties_C04.v", "Properties_C04sys.v"])
     lib = build_prod(run)
     rng = run.rng
     procs = gen_procs(rng, run.tier)
@@ -96,32 +107,36 @@ def check(run):
     for i, p in enumerate(procs):
         for k, (api, path, argv) in enumerate(p["calls"]):
             base = [hexs(path), hexlist(argv), hexlist([b"PATH=/bin"])]
-            gen_cases.append("\t".join(["gen", str(p["llog"] + la), str(1048575 + da), hexs(b"%{cmdline}")] + base))
-            gen_cases.append("\t".join(["gen", str(consts["ident_buf"]), str(consts["ident_buf"]), hexs(p["ident"])] + base))
             tmpl = {"devtty": bytes.fromhex(oc_js["devtty_path"]), "devnull": bytes.fromhex(oc_js["devnull_path"])}.get(p["out"], p["arg"].replace(b"@D@", b"/D"))
-            gen_cases.append("\t".join(["gen", str(consts["path_buf"]), str(consts["path_buf"]), hexs(tmpl)] + base))
+            for kind in ("gen", "generr"):
+                gen_cases.append("\t".join([kind, str(p["llog"] + la), str(1048575 + da), hexs(p["fmt"])] + base))
+                gen_cases.append("\t".join([kind, str(consts["ident_buf"]), str(consts["ident_buf"]), hexs(p["ident"])] + base))
+                gen_cases.append("\t".join([kind, str(consts["path_buf"]), str(consts["path_buf"]), hexs(tmpl)] + base))
             index.append((i, k))
     gp = os.path.join(run.scratch, "c04-gen.txt")
     open(gp, "w").write("".join(c + "\n" for c in gen_cases))
     g = run.run_model("expand", gp, gp + ".out")
     res_by_proc = {i: (script, r) for (i, script, r) in outs}
-    pred_cases, pred_idx = [], []
+    pred_cases, pred_idx, nerr_pred = [], [], {}
     for n, (i, k) in enumerate(index):
         p = procs[i]
         script, r = res_by_proc[i]
         pcs = per_call(r["records"])
         real = pcs.get(k, {}).get("real", [])
         pid = real[0][7] if real and len(real[0]) > 7 else "0"
-        msg, ident, path = (g[3 * n + j].split("\t")[1] for j in range(3))
-        pred_cases.append("\t".join(["predict", str(KIND[p["out"]]), hexs(p["arg"].replace(b"@D@", b"/D")), path, ident,
-                                     str(FAC[p["fac"]] | LVL[p["lvl"]]), pid, "1", "1" if drops(p["chain"]) else "0", msg]))
+        msg, ident, path = (g[6 * n + j].split("\t")[1] for j in range(3))
+        n1, n3, n2 = (g[6 * n + 3 + j].split("\t")[1] for j in range(3))     # refusals: message, ident template, path template
+        pred_cases.append("\t".join(["predict_el", str(KIND[p["out"]]), hexs(p["arg"].replace(b"@D@", b"/D")), path, ident,
+                                     str(FAC[p["fac"]] | LVL[p["lvl"]]), pid, "1" if p["el"] else "0", "1", "1" if drops(p["chain"]) else "0",
+                                     n1, n2, n3, ec["err_append_text"] or "-", msg]))
+        nerr_pred[(i, k)] = (int(n1), int(n2), int(n3))
         pred_idx.append((i, k))
     pp = os.path.join(run.scratch, "c04-pred.txt")
     open(pp, "w").write("".join(c + "\n" for c in pred_cases))
     open(os.path.join(run.scratch, "consts_output.tsv"), "a").close()
     pr = run.run_model("output", pp, pp + ".out")
     # ---- compare
-    ncmp, distinct = 0, set()
+    ncmp, distinct, n_errrec = 0, set(), 0
     sinkmap = {("0", b"/D/out.log"): "out", ("0", b"/D/out-T.log"): "out2", ("0", b"/dev/tty"): "tty", ("0", b"/dev/null"): None,
                ("1", b"1"): "so", ("1", b"2"): "se", ("2", b"/D/s.sock"): "sock", ("2", b"/dev/log"): "devlog"}
     for n, (i, k) in enumerate(pred_idx):
@@ -141,6 +156,9 @@ def check(run):
             if key is None:
                 continue          # /dev/null: unobservable by construction; "nothing anywhere else" is still checked
             expected.setdefault(key, []).append(data if data != "-" else "")
+        for nm in ("out", "out2", "so", "se", "tty"):          # byte-stream sinks: several records arrive as one stream
+            if nm in expected:
+                expected[nm] = ["".join(expected[nm])]
         pcs = per_call(r["records"])
         c = pcs.get(k, {"sinks": {}})
         last = (k == len(p["calls"]) - 1)      # simulated successful exec: only at-exec counts
@@ -154,7 +172,9 @@ def check(run):
                 got[nm] = ["".join(got[nm])]
         late = [(nm, hx[:80]) for ph in (("after", "after-flush") if not last else ()) for (nm, hx) in c["sinks"].get(ph, []) if hx not in ("-", "~")]
         ncmp += 1
-        distinct.add((p["out"], len(expected) > 0, min(len(pred_cases[n].split("\t")[-1]) // 2, 99999) // 1000, drops(p["chain"])))
+        distinct.add((p["out"], len(expected) > 0, min(len(pred_cases[n].split("\t")[-1]) // 2, 99999) // 1000, drops(p["chain"]), p["el"], min(sum(nerr_pred[(i, k)]), 3) if p["el"] else 0))
+        if p["el"] and sum(nerr_pred[(i, k)]) > 0 and not drops(p["chain"]):
+            n_errrec += 1
         why = None
         if "?" in expected:
             why = None if p["out"] == "file" and p["arg"] == b"" else "model predicts a sink the harness does not own"
@@ -179,15 +199,26 @@ def check(run):
                           {"failing_input": {"config": ini_of(p).decode(errors="replace"), "call": script[len(SINKS) + 2 + k][:300], "call_index": k},
                            "script": script, "call_index": k, "expected": {s: [x[:200] for x in v] for s, v in expected.items()},
                            "observed": {s: [x[:200] for x in v] for s, v in got.items()}, "late": late})
+    # ---- whole-run stream: generated snoopy.ini x calls, composed model (System/Compose.v) vs production wrapper
+    try:
+        sexe = sysmodel.build_model(run)
+    except CheckError as e:
+        sexe = None
+        ok, failed, log = False, failed or "Extract_system_run.v", log + "\n" + str(e)[-1500:]
+    nsys, dsys = 0, set()
+    if sexe:
+        nsys, dsys = sysmodel.whole_run_stream(run, lib, sexe, 28 if run.tier == "quick" else 400, 6, run.violation)
     if not ok and not run.violations:
         run.violation("proof:%s" % failed, "proof", "proof obligation no longer checks: %s\n%s" % (failed, log[-1500:]), {"theorem": failed, "coq_log": log[-3000:]})
     run.coverage.update({
-        "evaluations": ncmp, "distinct_nontrivial": len(distinct),
+        "evaluations": ncmp + nsys, "distinct_nontrivial": len(distinct) + len(dsys),
         "rule": "one process per (output, argument, facility, level, ident template, filter chain, message limit); per process 5-8 calls with messages of "
                 "0,1,2,...,limit-1,limit,limit+1 bytes of arbitrary non-NUL bytes (capped per sink type so that the harness-owned pipe/pty/datagram queue can hold them), "
                 "the last call being a simulated successful exec; all seven sinks drained at exec entry; distinct = (output, record expected?, size class, dropped?)",
         "samples": [{"config": ini_of(procs[0]).decode(errors="replace"), "calls": len(procs[0]["calls"])}],
-        "distribution": {"processes": len(procs), "outputs": sorted(set(p["out"] for p in procs)), "dropping_chains": sum(1 for p in procs if drops(p["chain"]))},
+        "distribution": {"processes": len(procs), "outputs": sorted(set(p["out"] for p in procs)), "dropping_chains": sum(1 for p in procs if drops(p["chain"])),
+                         "error_logging_on": sum(1 for p in procs if p["el"]), "calls_with_error_records_predicted": n_errrec,
+                         "whole_run_calls_compared": nsys, "whole_run_distinct": len(dsys)},
         "traces_validated_against_impl": ncmp,
         "file_open": oc.get("file_open_desc"),
     })
